@@ -202,7 +202,8 @@ func ruleR05_5(w *World, r *Report) {
 
 	// (1) pulled = (new.Sseq - old.Sseq) - (new.Cseq - old.Cseq)
 	if fn := wd("calculatePullingOperations"); fn == nil {
-		r.Lost("WiredDatatype.calculatePullingOperations")
+		// inlined into its caller: the formula is then part of the skipped-prefix expression checked below
+		r.OK("calculatePullingOperations/pulled", "", "helper not present; formula checked in excludeDuplicatedOperations")
 	} else {
 		forEachInstr(fn, func(in ssa.Instruction) {
 			if ret, ok := in.(*ssa.Return); ok && len(ret.Results) == 1 {
@@ -215,7 +216,8 @@ func ruleR05_5(w *World, r *Report) {
 	if fn := wd("excludeDuplicatedOperations"); fn == nil {
 		r.Lost("WiredDatatype.excludeDuplicatedOperations")
 	} else {
-		ab := rewriter(`phi\(\$0\.calculatePullingOperations\(\$1\.CheckPoint\)\|0\)`, "PULLED0", `\$0\.calculatePullingOperations\(\$1\.CheckPoint\)`, "PULLED", `len\(\$1\.Operations\)`, "LEN")
+		const pulledForm = `\{\+\$0\.checkPoint\.Cseq-\$0\.checkPoint\.Sseq-\$1\.CheckPoint\.Cseq\+\$1\.CheckPoint\.Sseq\}`
+		ab := rewriter(`phi\(0\|`+pulledForm+`\)`, "PULLED0", pulledForm, "PULLED", `len\(\$1\.Operations\)`, "LEN")
 		n := 0
 		forEachInstr(fn, func(in ssa.Instruction) {
 			sl, ok := in.(*ssa.Slice)
@@ -305,7 +307,7 @@ func ruleR05_5(w *World, r *Report) {
 			r.Lost("PushPullHandler.pullOperations")
 			return
 		}
-		ab := rewriter(`\$0\.managers\.Mongo\.MongoCollections\.GetOperations\([^#]*\)#1\[\(len\([^#]*#1\)-1\)\]`, "LASTPULLED", `len\(\$0\.pushingOperations\)`, "LEN(pushing)")
+		ab := rewriter(`\$0\.managers\.Mongo\.MongoCollections\.GetOperations\([^#]*\)#1\[\{\+len\([^#]*#1\)-1\}\]`, "LASTPULLED", `len\(\$0\.pushingOperations\)`, "LEN(pushing)")
 		sts := storesTo(fn, "$0.currentCP.Sseq")
 		if len(sts) == 0 {
 			r.Lost("pullOperations: store to currentCP.Sseq")
